@@ -98,6 +98,27 @@ def check_map(acc: core.Acc, make, case: dict, sig: dict) -> None:
             key = (la[i] if i < len(la) else '<eof>').strip().split('" "')[0].strip('"\t ')
             acc.fail('text_not_fixed_point', c, f'{case} {opts}: second export differs at line {i}:\n  1st: {la[i-1:i+2]}\n  2nd: {lb[i-1:i+2]}',
                      stage='text', line_key=key[:30], **sig)
+        if not minimal and multiblend and preserve:
+            # the other documented way in: VMF.parse(<file name>) reads and parses the file itself
+            acc.evaluations += 1
+            fn = os.path.join('/dev/shm', f'verif-C06-{os.getpid()}.vmf')
+            try:
+                with open(fn, 'w', encoding='utf8', newline='') as f:
+                    f.write(t1)
+                m3 = VMF.parse(fn, preserve_ids=True)
+                t3 = m3.export(inc_version=False, minimal=minimal, disp_multiblend=multiblend)
+                if t3 != t2:
+                    l3, l2 = t3.split('\n'), t2.split('\n')
+                    i = next((i for i, (x, y) in enumerate(zip(l3, l2)) if x != y), min(len(l3), len(l2)))
+                    acc.fail('parse_route_differs', c, f'{case} {opts}: VMF.parse(file name) and VMF.parse(Keyvalues.parse(text)) of the same text export '
+                             f'differently at line {i}: {l3[i-1:i+2]} vs {l2[i-1:i+2]}', stage='parse', **sig)
+            except Exception as exc:  # noqa: BLE001
+                acc.fail('parse_route_differs', c, f'{case} {opts}: VMF.parse(file name) raised {type(exc).__name__}: {str(exc)[:300]}', stage='parse', **sig)
+            finally:
+                try:
+                    os.unlink(fn)
+                except OSError:
+                    pass
         obs2 = vmfgen.observe(m2, minimal, multiblend)
         d = vmfgen.diff(obs0, obs2, vmfgen.IdMap(preserve))
         if d:
